@@ -38,6 +38,9 @@ structure Cfg where
   lockedRun : Bool := true
   /-- the bodies of `cache_clear` / `cache_info` are entirely inside `with self.lock` -/
   lockedClear : Bool := true
+  /-- the only update of `reminder_keys[name][key]` in `run` is `.add(remkey)` next to
+      `reminders[name][remkey] += old_value` (used by the concrete-dict model, Model/C10Dict) -/
+  rkAccumulate : Bool := true
 
 def wrapped (cfg : Cfg) (new old : Nat) : Bool :=
   if cfg.strictLess then decide (new < old) else decide (new ≤ old)
